@@ -93,3 +93,81 @@ pub fn solo(plan: &Plan, out: ExecOut) -> (ExecOut, Option<Violation>, Vec<Level
     }
     (out, None, vec![])
 }
+
+
+/// child side of the first-use tier: every task of the plan on its own real thread, released by a barrier
+/// before anything in this process has touched the library; prints the per-task operation digests.
+pub fn child_first_use(plan_path: &str) -> i32 {
+    let Ok(txt) = std::fs::read_to_string(plan_path) else { return 2 };
+    let Ok(plan) = serde_json::from_str::<Plan>(&txt) else { return 2 };
+    let n = plan.tasks.len();
+    let barrier = std::sync::Arc::new(std::sync::Barrier::new(n));
+    let mut hs = Vec::new();
+    for t in plan.tasks.iter() {
+        let mut p = plan.clone();
+        p.tasks = vec![t.clone()];
+        p.schedule = Schedule::Explicit { choices: vec![] };
+        let b = barrier.clone();
+        hs.push(
+            std::thread::Builder::new()
+                .stack_size(crate::runner::WORKER_STACK)
+                .spawn(move || {
+                    b.wait();
+                    let o = crate::exec::exec(&p);
+                    (o.op_digests.into_iter().next().unwrap_or_default(), o.violation.map(|v| v.detail))
+                })
+                .expect("spawn"),
+        );
+    }
+    let res: Vec<(Vec<u64>, Option<String>)> = hs.into_iter().map(|h| h.join().unwrap_or((vec![], Some("thread panicked".into())))).collect();
+    println!("{}", serde_json::to_string(&res).unwrap());
+    0
+}
+
+pub fn first_use(plan: &Plan, out: ExecOut) -> (ExecOut, Option<Violation>, Vec<Level>) {
+    // solo digests, one task at a time, in this (already warm) process
+    let mut solo: Vec<Vec<u64>> = Vec::new();
+    for t in &plan.tasks {
+        let mut p = plan.clone();
+        p.tasks = vec![t.clone()];
+        p.schedule = Schedule::Explicit { choices: vec![] };
+        let so = crate::exec::exec(&p);
+        if so.violation.is_some() || so.harness_error.is_some() {
+            let v = so.violation.clone();
+            return (so, v, vec![]);
+        }
+        solo.push(so.op_digests[0].clone());
+    }
+    static CTR: std::sync::atomic::AtomicUsize = std::sync::atomic::AtomicUsize::new(0);
+    let path = std::env::temp_dir().join(format!("b3sim.firstuse.{}.{}.json", std::process::id(), CTR.fetch_add(1, std::sync::atomic::Ordering::Relaxed)));
+    if std::fs::write(&path, serde_json::to_string(plan).unwrap()).is_err() {
+        return (out, None, vec![]);
+    }
+    let o = std::process::Command::new(std::env::current_exe().unwrap()).arg("child").arg("first-use").arg(&path).output();
+    let _ = std::fs::remove_file(&path);
+    let Ok(o) = o else { return (out, None, vec![]) };
+    let line = String::from_utf8_lossy(&o.stdout).lines().last().unwrap_or("").to_string();
+    let Ok(res) = serde_json::from_str::<Vec<(Vec<u64>, Option<String>)>>(&line) else {
+        let v = Violation { property: plan.prop.clone(), class: "panic".into(), task: 0, op: 0, op_kind: "".into(), detail: format!("fresh process running the tasks on real threads ended with {:?} and no result", o.status.code()) };
+        return (out, Some(v), vec![]);
+    };
+    for (ti, (digs, vio)) in res.iter().enumerate() {
+        if let Some(d) = vio {
+            let v = Violation { property: plan.prop.clone(), class: "not-isolated".into(), task: ti, op: 0, op_kind: "".into(), detail: format!("[first use, real threads] {d}") };
+            return (out, Some(v), vec![]);
+        }
+        if ti < solo.len() && *digs != solo[ti] {
+            let oi = digs.iter().zip(solo[ti].iter()).position(|(a, b)| a != b).unwrap_or(0);
+            let v = Violation {
+                property: plan.prop.clone(),
+                class: "not-isolated".into(),
+                task: ti,
+                op: oi,
+                op_kind: plan.tasks[ti].ops.get(oi).map_or("", |o| o.kind()).into(),
+                detail: format!("task {ti} op {oi}: result in a fresh process with all tasks started together differs from the solo run"),
+            };
+            return (out, Some(v), vec![]);
+        }
+    }
+    (out, None, vec![])
+}
